@@ -123,8 +123,18 @@ func c12Boundary(c core.Case, env *core.Env, p c12Case) core.Result {
 	}
 	res.Count("boundary.flips."+p.Type, int64(len(flips)))
 	done := map[int64]bool{}
+	// the smallest ranges are always driven, whatever the thresholds: 1..64 sectors
+	var sizes []int64
+	for n := int64(1); n <= 64; n++ {
+		sizes = append(sizes, n)
+	}
 	for _, f := range flips {
 		for n := f - p.Win; n <= f+p.Win; n++ {
+			sizes = append(sizes, n)
+		}
+	}
+	for _, n := range sizes {
+		{
 			if n < 1 || done[n] {
 				continue
 			}
@@ -167,6 +177,19 @@ func c12Run(c core.Case, env *core.Env) core.Result {
 		devSize = p.Size + startSectors*lss + 64*lss*2 + (1 << 20)
 		part = 1
 	}
+	// the filesystem's partition is not the first one: an earlier small partition and, for gpt-gap, unused
+	// entry slots in between (GPT entries keep their slot number)
+	dummySectors := int64(0)
+	switch p.Where {
+	case "gpt-gap":
+		part, dummySectors = 4, 64
+	case "gpt-last-slot":
+		part, dummySectors = 128, 64
+	case "mbr-2nd":
+		part, dummySectors = 2, 64
+	}
+	startSectors += dummySectors
+	devSize += dummySectors * lss
 	devSize = devSize / lss * lss
 	st := monstore.NewMem(devSize)
 	opt := sectorOpt(p.Sector)
@@ -177,6 +200,23 @@ func c12Run(c core.Case, env *core.Env) core.Result {
 	}
 	sizeSectors := p.Size / lss
 	switch p.Where {
+	case "gpt-gap", "gpt-last-slot":
+		t := &gpt.Table{LogicalSectorSize: p.Sector, PhysicalSectorSize: p.Sector, ProtectiveMBR: true,
+			Partitions: []*gpt.Partition{
+				{Index: 1, Start: uint64(startSectors - dummySectors), End: uint64(startSectors - 1), Type: gpt.LinuxFilesystem, Name: "first"},
+				{Index: part, Start: uint64(startSectors), End: uint64(startSectors + sizeSectors - 1), Type: gpt.LinuxFilesystem, Name: "verif"}}}
+		if err := d.Partition(t); err != nil {
+			res.Inconclusive = "Partition(gpt with unused slots): " + err.Error()
+			return res
+		}
+	case "mbr-2nd":
+		t := &mbr.Table{LogicalSectorSize: p.Sector, PhysicalSectorSize: p.Sector,
+			Partitions: []*mbr.Partition{{Index: 1, Type: mbr.Linux, Start: uint32(startSectors - dummySectors), Size: uint32(dummySectors)},
+				{Index: 2, Type: mbr.Linux, Start: uint32(startSectors), Size: uint32(sizeSectors)}}}
+		if err := d.Partition(t); err != nil {
+			res.Inconclusive = "Partition(mbr, two partitions): " + err.Error()
+			return res
+		}
 	case "gpt":
 		t := &gpt.Table{LogicalSectorSize: p.Sector, PhysicalSectorSize: p.Sector, ProtectiveMBR: true,
 			Partitions: []*gpt.Partition{{Index: 1, Start: uint64(startSectors), End: uint64(startSectors + sizeSectors - 1), Type: gpt.LinuxFilesystem, Name: "verif"}}}
@@ -237,11 +277,22 @@ func c12Run(c core.Case, env *core.Env) core.Result {
 			fail("table-not-recognised", p.Where, "a %s disk is reported as having no table: %v", p.Where, terr)
 			return res
 		}
-		if tb.Type() != p.Where {
-			fail("table-type", p.Where+"-reported-as-"+tb.Type(), "a %s disk is reported as %s", p.Where, tb.Type())
+		wantTable := strings.SplitN(p.Where, "-", 2)[0]
+		if tb.Type() != wantTable {
+			fail("table-type", wantTable+"-reported-as-"+tb.Type(), "a %s disk is reported as %s", wantTable, tb.Type())
 			return res
 		}
-		res.Count("table.recognised."+p.Where, 1)
+		res.Count("table.recognised."+wantTable, 1)
+		if p.Where == "gpt-gap" && p.Type != "blank" {
+			// an unused entry slot is not a partition
+			var e2 error
+			var f2 filesystem.FileSystem
+			core.Guard(func() { f2, e2 = d2.GetFilesystem(2) })
+			if e2 == nil && f2 != nil {
+				fail("unused-slot-has-filesystem", "gpt-slot-2-of-1-and-4", "GetFilesystem(2) on an unused GPT entry slot returns a %s filesystem (partitions 1 and 4 exist)", fsTypeName(f2.Type()))
+				return res
+			}
+		}
 	}
 	var fs filesystem.FileSystem
 	var gerr error
@@ -398,6 +449,11 @@ func c12Cases(seed int64, tier string) []core.Case {
 
 				add(c12Case{Type: t, Where: w, Size: sz, Sector: sectorFor(t), Label: labels[(i+j)%len(labels)]})
 			}
+			if i <= 1 || tier == "thorough" {
+				for j, w := range []string{"gpt-gap", "gpt-last-slot", "mbr-2nd"} {
+					add(c12Case{Type: t, Where: w, Size: sz, Sector: sectorFor(t), Label: labels[(i+j+1)%len(labels)]})
+				}
+			}
 		}
 	}
 	// stale bytes: every ordered pair (previous type -> new type), same range, no wiping
@@ -431,8 +487,8 @@ func c12Cases(seed int64, tier string) []core.Case {
 		for _, b := range []struct {
 			t      string
 			lo, hi int64
-		}{{"fat12", 8, 300000}, {"fat16", 2000, 5000000}, {"fat32", 64, 3000000}} {
-			cs = append(cs, core.MkCase(fmt.Sprintf("boundary-%s-%s", b.t, w), "boundary-"+b.t, r.Int63(), c12Case{Type: b.t, Where: w, Sector: 512, Lo: b.lo, Hi: b.hi, Win: win}))
+		}{{"fat12", 1, 300000}, {"fat16", 1, 5000000}, {"fat32", 1, 3000000}, {"ext4", 1, 400000}, {"iso9660", 1, 3000}, {"squashfs", 1, 3000}} {
+			cs = append(cs, core.MkCase(fmt.Sprintf("boundary-%s-%s", b.t, w), "boundary-"+b.t, r.Int63(), c12Case{Type: b.t, Where: w, Sector: sectorFor(b.t), Lo: b.lo, Hi: b.hi, Win: win}))
 		}
 	}
 	// blank ranges, also with a removed-table device
@@ -446,15 +502,15 @@ func c12Cases(seed int64, tier string) []core.Case {
 
 func init() {
 	core.Register(&core.Check{
-		ID:    "C12",
-		Level: "exploration",
-		Rule: "disk.CreateFilesystem(T, label) for T in {fat12, fat16, fat32, ext4, iso9660, squashfs} on the whole disk, in a GPT partition and in an MBR partition of a store-backed disk (512-byte sectors; 4096 for iso9660/squashfs), sizes bracketing each type's limits and (thorough) stepping across the FAT cluster-count thresholds, labels {empty, upper, 11 chars, lower case, with space}; for the FAT types the sizes where CreateFilesystem flips between refusing and accepting are located at run time (geometric scan + bisection on a whole-disk range) and every sector size within +-48 (thorough +-160, also in partitions) of each flip is driven; one file is written (and the image finalized where needed); a freshly opened disk on the same bytes must report the table type, GetFilesystem(n).Type()==T, the label and the file's content; every ordered pair (previous type -> new type) is created in the same range without wiping; blank ranges must give the unknown-filesystem error. Non-trivial = filesystem accepted by CreateFilesystem and re-opened; distinct = distinct configuration",
+		ID:          "C12",
+		Level:       "exploration",
+		Rule:        "disk.CreateFilesystem(T, label) for T in {fat12, fat16, fat32, ext4, iso9660, squashfs} on the whole disk, in a GPT partition and in an MBR partition of a store-backed disk (also as GPT entry 4 with slots 2-3 unused - slot 2 must then not be a partition -, as GPT entry 128, and as the second MBR partition) (512-byte sectors; 4096 for iso9660/squashfs), sizes bracketing each type's limits and (thorough) stepping across the FAT cluster-count thresholds, labels {empty, upper, 11 chars, lower case, with space}; for the FAT types the sizes where CreateFilesystem flips between refusing and accepting are located at run time (geometric scan + bisection on a whole-disk range) and every sector size within +-48 (thorough +-160, also in partitions) of each flip is driven; one file is written (and the image finalized where needed); a freshly opened disk on the same bytes must report the table type, GetFilesystem(n).Type()==T, the label and the file's content; every ordered pair (previous type -> new type) is created in the same range without wiping; blank ranges must give the unknown-filesystem error. Non-trivial = filesystem accepted by CreateFilesystem and re-opened; distinct = distinct configuration",
 		Assumptions: []string{"fat12/fat16/ext4 accept only 512-byte sectors and iso9660/squashfs need 2048+/4096: stale-bytes pairs that cannot share a disk are not driven", "a refusal by CreateFilesystem is an observation"},
-		MinSigs:   map[string]int{"quick": 70, "thorough": 250},
-		NeedMarks: []string{"fat12 accept/refuse flip found", "fat16 accept/refuse flip found", "fat32 accept/refuse flip found", "fat12 on whole", "fat16 on gpt", "fat32 on mbr", "ext4 on gpt", "iso9660 on whole", "squashfs on whole", "blank range"},
-		CPUSec:    600,
-		Cases:     c12Cases,
-		Run:       c12Run,
+		MinSigs:     map[string]int{"quick": 70, "thorough": 250},
+		NeedMarks:   []string{"fat12 on gpt-gap", "fat32 on gpt-last-slot", "ext4 on mbr-2nd", "fat12 accept/refuse flip found", "fat16 accept/refuse flip found", "fat32 accept/refuse flip found", "fat12 on whole", "fat16 on gpt", "fat32 on mbr", "ext4 on gpt", "iso9660 on whole", "squashfs on whole", "blank range"},
+		CPUSec:      600,
+		Cases:       c12Cases,
+		Run:         c12Run,
 	})
 }
 
